@@ -33,3 +33,68 @@ package ecs
 //@   requires len(m.hasObservers) == 256
 //@   ensures  value: result == m.hasObservers[evt]
 //@   modifies nothing
+
+// ---- dispatch: the callback of an observer runs iff the documented predicate holds ----------
+//
+// Oracle: docs/content/events (not events.go). For every dispatch loop the clause
+// "loop 1 fires P" yields two obligations per iteration: the callback call is only reached
+// when P holds for the observer at hand (fires=>), and an iteration for whose observer P holds
+// does reach it (fires<=).
+
+//@ spec func obsCompsIn(o *observerData, m bitMask) bool := forall i uint8 :: mhas(o.compsMask, i) ==> mhas(m, i)
+//@ spec func obsCompsDisjoint(o *observerData, m bitMask) bool := forall i uint8 :: !(mhas(o.compsMask, i) && mhas(m, i))
+//@ spec func obsWithOK(o *observerData, m bitMask) bool :=
+//@      (!o.hasWith || (forall i uint8 :: mhas(o.withMask, i) ==> mhas(m, i)))
+//@   && (!o.hasWithout || (forall i uint8 :: !(mhas(o.withoutMask, i) && mhas(m, i))))
+
+//@ func (*observerManager).FireCreateEntity
+//@   serves C08
+//@   requires obsShape(m) && mask != nil
+//@   loop 1 fires doc: obsWithOK(o, *mask)
+
+//@ func (*observerManager).FireCreateEntityRel
+//@   serves C08
+//@   requires obsShape(m) && mask != nil
+//@   loop 1 fires doc: (!o.hasComps || obsCompsIn(o, *mask)) && obsWithOK(o, *mask)
+
+//@ func (*observerManager).FireAdd
+//@   serves C08
+//@   requires obsShape(m) && oldMask != nil && newMask != nil
+//@   loop 1 fires doc: (!o.hasComps || (obsCompsIn(o, *newMask) && obsCompsDisjoint(o, *oldMask))) && obsWithOK(o, *oldMask)
+
+//@ func (*observerManager).FireRemove
+//@   serves C08
+//@   requires obsShape(m) && oldMask != nil && newMask != nil
+//@   loop 1 fires doc: (!o.hasComps || (obsCompsIn(o, *oldMask) && obsCompsDisjoint(o, *newMask))) && obsWithOK(o, *oldMask)
+
+//@ func (*observerManager).FireSet
+//@   serves C08
+//@   requires obsShape(m) && mask != nil && newMask != nil
+//@   loop 1 fires doc: (!o.hasComps || obsCompsIn(o, *mask)) && obsWithOK(o, *newMask)
+
+//@ func (*observerManager).FireSetRelations
+//@   serves C08
+//@   requires obsShape(m) && mask != nil && newMask != nil
+//@   loop 1 fires doc: (!o.hasComps || obsCompsIn(o, *mask)) && obsWithOK(o, *newMask)
+
+//@ func (*observerManager).FireCustom
+//@   serves C08
+//@   requires obsShape(m) && mask != nil && entityMask != nil
+//@   loop 1 fires doc: (!o.hasComps || obsCompsIn(o, *mask)) && obsWithOK(o, *entityMask)
+
+// The two removal dispatchers are also called from storage.RemoveEntity under the world lock;
+// there the callback frame (DESIGN 3.4) is what "modifies nothing" states: callbacks under lock
+// cannot complete a structural operation (C07).
+//@ func (*observerManager).FireRemoveEntity
+//@   serves C08 C09
+//@   requires obsShape(m) && mask != nil
+//@   loop 1 fires doc: obsWithOK(o, *mask)
+//@   modifies nothing
+//@   callbackframe
+
+//@ func (*observerManager).FireRemoveEntityRel
+//@   serves C08 C09
+//@   requires obsShape(m) && mask != nil
+//@   loop 1 fires doc: (!o.hasComps || obsCompsIn(o, *mask)) && obsWithOK(o, *mask)
+//@   modifies nothing
+//@   callbackframe
